@@ -290,6 +290,12 @@ func (fr *frame) execInstr(in ssa.Instruction, st *State, reach string, b *ssa.B
 		}
 		fr.mapUpdateAsserts(x, st, reach)
 		u.oblige(fr.obName("mapwrite", fr.describe(x.Map, 0)), "mapwrite", nil, reach, fmt.Sprintf("(not (= %s 0))", mv.t), fr.pos(x.Pos()), "")
+		if ld, isLd := x.Map.(*ssa.UnOp); isLd && ld.Op == token.MUL && !(fr.fn.Synthetic != "" && fr.fn.Name() == "init") {
+			if g, isG := ld.X.(*ssa.Global); isG && u.eng.keptBetweenCalls(g) {
+				u.oblige(fr.obName("frame", "cross-call-state."+g.Name()), "frame", nil, reach, "false", fr.pos(x.Pos()),
+					"package-level map "+g.Name()+" is updated outside the package initialiser: state carried from one call to the next; the contracts state each result as a function of the call's own arguments")
+			}
+		}
 		if mv.guard != "" {
 			h := u.heapGet(st, "GH:locks", "(Array Int Int)")
 			u.oblige(fr.obName("guard-write", fr.describe(x.Map, 0)), "lock", []string{"C20"}, reach,
